@@ -165,6 +165,33 @@ def h_log(en, x):
   return LOG(E._real(arrays._num(x)))
 
 
+def _minmax(is_min):
+  def h(en, a, b):
+    if not (_is_mat(a) or _is_mat(b)):
+      if arrays._is_seq(a) or arrays._is_seq(b):
+        f = (lambda x, y: z3.If(E._real(arrays._num(x)) <= E._real(arrays._num(y)), E._real(arrays._num(x)), E._real(arrays._num(y)))) if is_min else \
+            (lambda x, y: z3.If(E._real(arrays._num(x)) >= E._real(arrays._num(y)), E._real(arrays._num(x)), E._real(arrays._num(y))))
+        return arrays._elementwise(en, a, b, f, 'min' if is_min else 'max')
+      x, y = E._real(arrays._num(a)), E._real(arrays._num(b))
+      return z3.If(x <= y, x, y) if is_min else z3.If(x >= y, x, y)
+    ra, ca, ga = as_mat(a)
+    rb, cb, gb = as_mat(b)
+
+    def get(i, j):
+      x, y = E._real(arrays._num(ga(i, j))), E._real(arrays._num(gb(i, j)))
+      return z3.If(x <= y, x, y) if is_min else z3.If(x >= y, x, y)
+    return SymMat(_dim(en, ra, rb, 'rows'), _dim(en, ca, cb, 'cols'), get, 'minimum' if is_min else 'maximum')
+  return h
+
+
+def h_fill_diagonal(en, m, val, *a, **k):
+  if not _is_mat(m) or a or k:
+    raise E.Unsupported('fill_diagonal outside the subset')
+  old, v = m.get, E._real(arrays._num(val))
+  m.get = lambda i, j: z3.If(E.to_z3(i) == E.to_z3(j), v, old(i, j))      # in place, like numpy
+  return None
+
+
 def _norm(en, k, n, lineno=None):
   k = E.to_z3(k)
   n = E.to_z3(n)
@@ -255,6 +282,9 @@ def install(en: E.Engine):
     _reg(en, mod.diag, h_diag, f'{nm}.diag')
     _reg(en, mod.cumsum, h_cumsum, f'{nm}.cumsum (ghost prefix sums)')
     _reg(en, mod.log, h_log, f'{nm}.log (uninterpreted, A9)')
+    _reg(en, mod.minimum, _minmax(True), f'{nm}.minimum (broadcast)')
+    _reg(en, mod.maximum, _minmax(False), f'{nm}.maximum (broadcast)')
+  _reg(en, np.fill_diagonal, h_fill_diagonal, 'np.fill_diagonal (in place)')
   en.libspec[('subscript', 'SymMat')] = (None, mat_subscript)
   en.libspec[('store', 'SymMat')] = (None, mat_store)
   en.libspec[('attr', 'SymMat', 'ndim')] = (None, lambda en_, m: 2)
